@@ -129,24 +129,24 @@ int main(int argc, char **argv) {
   c.level = "exploration";
   c.rule =
       "all instances with 1..3 sources and 1..3 sinks (thorough: up to 4x3 / 3x4 on a reduced value set), positions in {0,1,3} (thorough {0,1,2,4}), unsorted with "
-      "duplicates, supplies and demands in {0..3} (zeros included), total supply <= total demand, plus the over-full ones after balanceDemand(); "
+      "duplicates (plus 3x4 on {0,2,4,5} with quantities 1..2), supplies and demands in {0..3} (zeros included), total supply <= total demand, plus the over-full ones after balanceDemand(); "
       "plus the same shapes scaled/shifted to positions ~1e8; oracle: plan validity by direct sums, cost equal to the non-crossing-matching DP optimum, "
       "assign(): one in-range positive-demand sink per source and the unsplit-source rule; built with ASan/UBSan/libstdc++ assertions so any "
       "out-of-bounds access kills the worker; non-trivial = a source is split or a zero supply/demand is present";
   c.bounds = th ? "<=4x3, values {0..3}" : "<=3x3";
   c.enumerate = [=](const std::function<void(const Inst &)> &f) {
-    auto gen = [&](int n, int m, std::vector<long long> pos, int maxQ, long long scale, long long shift, bool onlyBalanced) {
+    auto gen = [&](int n, int m, std::vector<long long> pos, int maxQ, long long scale, long long shift, bool onlyBalanced, int minQ = 0) {
       std::vector<int> radix;
       for (int i = 0; i < n + m; ++i) radix.push_back(pos.size());
-      for (int i = 0; i < n + m; ++i) radix.push_back(maxQ + 1);
+      for (int i = 0; i < n + m; ++i) radix.push_back(maxQ - minQ + 1);
       for (vf::Odometer od(radix); !od.done; od.next()) {
         Inst in;
         in.scale = scale; in.shift = shift;
         long long ts = 0, td = 0;
         for (int i = 0; i < n; ++i) in.u.push_back(pos[od.v[i]]);
         for (int j = 0; j < m; ++j) in.v.push_back(pos[od.v[n + j]]);
-        for (int i = 0; i < n; ++i) { in.s.push_back(od.v[n + m + i]); ts += od.v[n + m + i]; }
-        for (int j = 0; j < m; ++j) { in.d.push_back(od.v[2 * n + m + j]); td += od.v[2 * n + m + j]; }
+        for (int i = 0; i < n; ++i) { in.s.push_back(minQ + od.v[n + m + i]); ts += minQ + od.v[n + m + i]; }
+        for (int j = 0; j < m; ++j) { in.d.push_back(minQ + od.v[2 * n + m + j]); td += minQ + od.v[2 * n + m + j]; }
         if (ts <= td) { in.balance = 0; f(in); }
         else if (!onlyBalanced) { in.balance = 1; f(in); }
       }
@@ -157,11 +157,17 @@ int main(int argc, char **argv) {
         if (n == 3 && m == 3 && !th) { gen(3, 3, {0, 2}, 3, 1, 0, false); gen(3, 3, P, 2, 1, 0, true); continue; }
         gen(n, m, P, 3, 1, 0, false);
       }
+    // three sources x four sinks on four positions with unequal gaps, supplies/demands 1..2 (a source straddling a sink boundary)
+    gen(3, 4, {0, 2, 4, 5}, 2, 1, 0, true, 1);
     // scaled copies as produced by the rough legalizer's 1e8 factor
     gen(2, 2, {0, 1, 3}, 3, 33333333, 0, false);
     gen(3, 2, {0, 1, 3}, 2, 33333333, 5, false);
     gen(2, 3, {0, 1, 3}, 2, 25000000, -100000000, false);
     if (th) {
+      gen(3, 4, {0, 1, 3, 4}, 2, 1, 0, true, 1);
+      gen(3, 4, {0, 2, 3, 5}, 2, 1, 0, true, 1);
+      gen(4, 3, {0, 2, 4, 5}, 2, 1, 0, true, 1);
+      gen(3, 4, {0, 3, 4, 6}, 2, 1, 0, false, 1);
       gen(4, 3, {0, 1, 3}, 2, 1, 0, false);
       gen(3, 4, {0, 1, 3}, 2, 1, 0, false);
       gen(4, 2, {0, 1, 2, 4}, 3, 1, 0, false);
